@@ -38,6 +38,12 @@ pub enum Body {
     RejectAndMore,
     /// a `<from>` at statement level plus reject
     FromThenReject,
+    /// default reject plus one further element: `inside_then` = next to the `<reject/>` (else at
+    /// statement level), `before` = ahead of the reject / the `<then>`, `shape`: 0 `<x/>`,
+    /// 1 `<x></x>`, 2 a leaf with text (`<next>policy</next>`), 3 nested
+    /// (`<metric><metric>10</metric></metric>`), 4 nested with an empty child
+    /// (`<community><add/><community-name>c</community-name></community>`)
+    RejectPlus { inside_then: bool, before: bool, shape: u8 },
 }
 
 #[derive(Debug, Clone, PartialEq, Eq, Serialize, Deserialize)]
@@ -137,6 +143,36 @@ impl Stmt {
                 X::container(Ns::Xnm, "from").kid(X::leaf(Ns::Xnm, "family", "inet")),
                 then("reject"),
             ],
+            Body::RejectPlus { inside_then, before, shape } => {
+                let extra = match (shape % 5, *inside_then) {
+                    (0, true) => X::new(Ns::Xnm, "next-hop-self"),
+                    (0, false) => X::new(Ns::Xnm, "inactive-marker"),
+                    (1, true) => X::container(Ns::Xnm, "trace"),
+                    (1, false) => X::container(Ns::Xnm, "to"),
+                    (2, true) => X::leaf(Ns::Xnm, "next", "policy"),
+                    (2, false) => X::leaf(Ns::Xnm, "description", "text"),
+                    (3, true) => X::container(Ns::Xnm, "metric").kid(X::leaf(Ns::Xnm, "metric", "10")),
+                    (3, false) => X::container(Ns::Xnm, "to").kid(X::leaf(Ns::Xnm, "protocol", "bgp")),
+                    (_, true) => X::container(Ns::Xnm, "community")
+                        .kid(X::new(Ns::Xnm, "add"))
+                        .kid(X::leaf(Ns::Xnm, "community-name", "c")),
+                    (_, false) => X::container(Ns::Xnm, "to")
+                        .kid(X::new(Ns::Xnm, "rib"))
+                        .kid(X::leaf(Ns::Xnm, "instance", "i")),
+                };
+                if *inside_then {
+                    let t = X::container(Ns::Xnm, "then");
+                    vec![if *before {
+                        t.kid(extra).kid(X::new(Ns::Xnm, "reject"))
+                    } else {
+                        t.kid(X::new(Ns::Xnm, "reject")).kid(extra)
+                    }]
+                } else if *before {
+                    vec![extra, then("reject")]
+                } else {
+                    vec![then("reject"), extra]
+                }
+            }
         }
     }
 
@@ -288,6 +324,9 @@ pub fn stmt_strategy() -> impl Strategy<Value = Stmt> {
             1 => Just(Body::TermThenReject),
             1 => Just(Body::RejectAndMore),
             1 => Just(Body::FromThenReject),
+            3 => (any::<bool>(), any::<bool>(), 0u8..5).prop_map(|(inside_then, before, shape)| {
+                Body::RejectPlus { inside_then, before, shape }
+            }),
         ],
         prop::option::weighted(0.2, Just("grp".to_string())),
         any::<u16>(),
